@@ -12,4 +12,5 @@ Extraction "model.ml"
   api_it_drop api_it_drop_spec api_it_slice api_it_slice_spec api_it_first api_it_first_result
   api_it_last_result api_it_single api_it_some api_it_consume api_str_size api_str_to_bool
   api_str_trim_suffix api_opt_has api_take_while_ne
-  api_mf_run api_c_run api_wh_trace api_expand api_abs.
+  api_mf_run api_c_run api_wh_trace api_expand api_abs
+  api_xdg_home api_xdg_dirs api_getrids api_vfs_config_dir.
